@@ -124,6 +124,21 @@ CHECKS = {
         "Trusted: golden name tables written by hand (cross-read against /etc/services); CPython.",
         "DESIGN.md 4/C09",
     ),
+    "C10": (
+        "model_checking",
+        "explicit-state exploration over (tree shape, numbering) states with resequence(start, step) "
+        "transitions for the complete boundary product of arguments, depth 2, an arithmetic reference "
+        "model stepped next to the real Acl/AceGroup/AddrGroup",
+        "All tree shapes with <=4 (quick) / <=5 (thorough) leaves (explicit AceGroup items and "
+        "group-by-prefix), 6 previous numberings (incl. all-equal lines), 9 start x 8 step values "
+        "around 0, 1, 2^31, 2^32-1, 2^32 and negatives, both platforms, then 4 second calls from the "
+        "reached state (also after a refused call): numbers == s+i*d in rendered order, return value, "
+        "start 0 clears, the three error conditions raise ValueError, no number above 2^32-1 after a "
+        "normal return, content and structure unchanged, rendered text carries the numbers.",
+        "Trusted: the arithmetic model (a few lines). Nothing is claimed about numbers left behind "
+        "by a refused call.",
+        "DESIGN.md 4/C10",
+    ),
     "C11": (
         "exploration",
         "same pair enumeration as C03 restricted to group-free entries with non-empty port sets, "
